@@ -174,6 +174,9 @@ def generate_herds(n, seed, first_id):
     return scen
 
 
+CRASHES = []   # (panic message, output tail, shard input file) of rig processes killed by a panic in broker code
+
+
 def run_rig(chk, scenarios, race=False, shards=None, tag="rig"):
     """Execute scenarios on the real broker; returns {scenario id: [events]} and raw outputs."""
     binary = vlib.go_test_compile_inpkg("broker", RIG, "broker-rig" + ("-race" if race else ""), go=vlib.GO_NEW, race=race)
@@ -199,8 +202,12 @@ def run_rig(chk, scenarios, race=False, shards=None, tag="rig"):
     for r, outp in vlib.run_parallel(jobs):
         outputs.append(r.out)
         if r.timed_out or r.rc != 0:
-            # a crash of the rig binary is only a verdict when the race detector says so (handled by the caller)
-            if not (race and "WARNING: DATA RACE" in r.out):
+            m = re.search(r"^panic: (.*)$", r.out, re.M)
+            if m and re.search(r"^main\.\(\*(BrokerContext|IPC)\)|^main\.(proxyPolls|clientOffers|proxyAnswers|ampClientOffers)|container/heap", r.out, re.M) \
+                    and "rig_verif_test.go" not in r.out.split("goroutine", 2)[1 if "goroutine" in r.out else 0][:2000]:
+                # a goroutine of the broker itself panicked: in production this terminates the broker
+                CRASHES.append((m.group(1), r.out[-2500:], outp.replace("out-", "in-")))
+            elif not (race and "WARNING: DATA RACE" in r.out):
                 raise vlib.Inconclusive("broker rig failed (rc=%s timeout=%s):\n%s" % (r.rc, r.timed_out, r.out[-3000:]))
         if os.path.exists(outp):
             for ev in vlib.read_ndjson(outp):
@@ -331,8 +338,17 @@ def pipeline(chk, owner, tier, seed, counts=None, herds=None, do_mc=True, mc_onl
                               {"scenario": by_id[sid], "events": evs})
             continue
         ok_sc[sid] = evs
+    if CRASHES:
+        msg, tail, inp = CRASHES[0]
+        if owner == "C04":
+            chk.violation("C04/crash:" + re.sub(r"\[recovered\].*|0x[0-9a-f]+|\d+", "", msg).strip()[:80],
+                          "a goroutine of the broker panicked (the process would terminate): %s" % msg,
+                          {"shard": vlib.read_ndjson(inp) if os.path.exists(inp) else None, "output": tail})
+            return
+        chk.note("the broker crashed during replay (reported by C04): %s; continuing with the scenarios that completed" % msg)
+        by_sc = {k: v for k, v in by_sc.items() if any(e["ev"] == "end" for e in v)}
     missing = set(by_id) - set(by_sc)
-    if missing:
+    if missing and not CRASHES:
         raise vlib.Inconclusive("%d scenarios produced no trace" % len(missing))
     chk.cov["replay_divergences"] = diverged
     findings, accepted = validate(chk, ok_sc)
